@@ -312,13 +312,16 @@ pub fn observe_glob(id: u64, e: &str, sigma: &[u32], want: &Want, max_states: us
             let mut variants = vec![("own", Some(glob.clone().into_owned()))];
             variants.push(("par", e.parse::<Glob<'static>>().ok()));
             for (tag, g) in variants {
-                let (ok, pre, has, txt) = match g {
+                let (ok, pre, has, txt, caps) = match g {
                     Some(g) => {
                         let (pre, post) = g.partition();
-                        (true, cps(&pre.to_string_lossy()), post.is_some(), post.map_or_else(Vec::new, |p| cps(&p.to_string())))
+                        let caps = post.as_ref().map_or(json!([]), caps_json);
+                        (true, cps(&pre.to_string_lossy()), post.is_some(), post.map_or_else(Vec::new, |p| cps(&p.to_string())), caps)
                     },
-                    None => (false, vec![], false, vec![]),
+                    None => (false, vec![], false, vec![], json!([])),
                 };
+                // (the capture spans of the postfix of an owning glob index ITS expression text)
+                part[format!("{}_post_caps", tag)] = caps;
                 part[format!("{}_ok", tag)] = json!(ok);
                 part[format!("{}_prefix", tag)] = json!(pre);
                 part[format!("{}_has_post", tag)] = json!(has);
